@@ -4,6 +4,7 @@ sys.path.insert(0, os.path.join(os.path.dirname(os.path.abspath(__file__)), ".."
 import core, semmc, runner
 from astlib import *
 from cases import *
+import c03 as _c03, c08 as _c08
 
 OPS = [o for o in UN_BOOL + UN_TIMED + BIN_BOOL + ["sinceT", "untilT", "unlessT"] if o not in ("iff", "xor")]
 
@@ -58,16 +59,28 @@ def main():
         vcpred = rng.random() < 0.6
         g = Gen(rng, vars_=rng.choice([("x",), ("x", "y")]), S=S, ops=OPS, ivs=[(0, 0), (0, 1), (1, 2), (0, 3), (2, 2)],
                 var_const_preds=vcpred, bool_atoms=False)
-        online = rng.random() < 0.4
-        if online:
+        online = rng.random() < 0.5
+        past = online and rng.random() < 0.4          # the online monitor after pastify(): the sign at step k speaks about sample k - h
+        if online and not past:
             g.ops = [o for o in OPS if o not in FUT]
-        phi = g.formula(rng.choice([1, 2, 2, 3, 4]))
+        if past:
+            g.ops = [o for o in OPS if o not in UNB_FUT]
+            for _ in range(40):
+                phi = g.formula(rng.choice([1, 2, 2, 3]))
+                if (ops_of(phi) & FUT) and not _c03.past_over_future(phi):
+                    break
+            else:
+                continue
+            if rng.random() < 0.4:
+                phi = _c08.shaped_past(rng, g)        # a bounded past operator / next shifted by the horizon of a sibling (seed C07-e)
+        else:
+            phi = g.formula(rng.choice([1, 2, 2, 3, 4]))
         vs = vars_of(phi) or ["x"]
-        N = rng.choice([1, 2, 3, 4, 6, 8])
+        N = rng.choice([1, 2, 3, 4, 6, 8]) + (horizon(phi) if past else 0)
         w = gen_trace(rng, vs, N, S, lo=-3, hi=3)
         if online:
             fac = rng.choice(["StlDiscreteTimeSpecification", "StlDiscreteTimeOnlineSpecification"])
-            evs = [ev_parse()] + [ev_update(t, sample_at(w, t)) for t in range(N)]
+            evs = [ev_parse()] + ([ev_pastify()] if past else []) + [ev_update(t, sample_at(w, t)) for t in range(N)]
         else:
             fac = rng.choice(["StlDiscreteTimeSpecification", "StlDiscreteTimeOfflineSpecification"])
             evs = [ev_parse(), ev_evaluate(range(N), w)]
